@@ -331,6 +331,10 @@ def check_globals(ctx, region):
     allowed = {(CHECKS + '.get_extensions', 'extension_checks')}
     # the parser and file cache are part of the region for this rule
     full = dict(prog.region(ENF + '.load_rules', ENF + '.enforce'))
+    # ... and so is everything else the enforcer class does (an alias of a
+    # module-level object stored at construction is shared state too)
+    for m in prog.cls(ENF).methods.values():
+        full.setdefault(m.qual, m)
     n = 0
     for f, node, name, how in state_uses(prog, full):
         n += 1
